@@ -1,10 +1,14 @@
 import GoflowModel.Basic.Json
+import GoflowModel.Basic.JsonString
 import GoflowModel.Driver.Util
 /-
   jsonrt <document as prefix tokens>   →  ok <document as prefix tokens>        (json(parse_json(doc)))
 
   tokens:  N | T | F | #<coefficient>:<exponent> | S<hex text> | [<n> v₁ … vₙ | {<n> K<hex name> v₁ … K<hex name> vₙ
   in the answer numbers are written as they render: #<text>
+
+  jsonstr enc <hex text>      →  ok <hex of the string literal json.Marshal writes>
+  jsonstr dec <hex literal>   →  ok <hex of its value> | err
 -/
 namespace GoflowModel.Driver.Json
 open GoflowModel GoflowModel.Driver GoflowModel.Json
@@ -87,6 +91,17 @@ def handle : List String → Option String
     match parseJ (2 * toks.length + 2) toks with
     | some (j, []) => some ("ok " ++ " ".intercalate (encJ (rt j)))
     | _ => some "bad-document"
+  | ["jsonstr", "enc", h] =>
+    match decL h with
+    | some s => some ("ok " ++ encL (JsonString.encode s))
+    | none => some "bad-input"
+  | ["jsonstr", "dec", h] =>
+    match decL h with
+    | some lit =>
+      match JsonString.decode lit with
+      | some v => some ("ok " ++ encL v)
+      | none => some "err"
+    | none => some "bad-input"
   | _ => none
 
 end GoflowModel.Driver.Json
